@@ -405,6 +405,9 @@ type checkOpts struct {
 	noReplay bool
 	verbose  bool
 	seed     int
+	// noEvidence: a partial run (--harness, --param, --no-replay) does not describe what the
+	// registered command covers and leaves the evidence file alone
+	noEvidence bool
 }
 
 func cmdCheck(o checkOpts) int {
@@ -557,7 +560,9 @@ func cmdCheck(o checkOpts) int {
 		}
 	}
 	wall := time.Since(t0)
-	writeEvidence(o, ld, results, violations, unconfirmed, validated, broken, wall, confirmed, mismatches)
+	if os.Getenv("GOSMT_REPO") == "" && !o.noEvidence { // evidence describes /repo itself, from complete runs
+		writeEvidence(o, ld, results, violations, unconfirmed, validated, broken, wall, confirmed, mismatches)
+	}
 	if len(broken) > 0 {
 		for _, b := range broken {
 			fmt.Println("BROKEN property=" + o.prop + " " + b)
@@ -848,10 +853,12 @@ func main() {
 			case "--harness":
 				k++
 				o.filter = args[k]
+				o.noEvidence = true
 			case "--workers":
 				k++
 				o.workers, _ = strconv.Atoi(args[k])
 			case "--param":
+				o.noEvidence = true
 				k++
 				kv := strings.SplitN(args[k], "=", 2)
 				n, _ := strconv.Atoi(kv[1])
@@ -861,6 +868,7 @@ func main() {
 				cliParams[kv[0]] = n
 			case "--no-replay":
 				o.noReplay = true
+				o.noEvidence = true
 			case "-v":
 				o.verbose = true
 			default:
